@@ -24,9 +24,13 @@ def ids (m : ScoreMap F) : List Id := m.map (·.1)
 def Respects (f : List Id → Except Err (ScoreMap F)) : Prop :=
   ∀ r m, r ≠ [] → f r = .ok m → ∀ i ∈ ids m, i ∈ r
 
-/-- the fusion returns only ids present in one of its inputs -/
+/-- the fusion, applied to maps (each id once), returns only ids present in one of them -/
 def KeysUnion (c : ScoreMap F → ScoreMap F → ScoreMap F) : Prop :=
-  ∀ v t, ∀ i ∈ ids (c v t), i ∈ ids v ∨ i ∈ ids t
+  ∀ v t, (ids v).Nodup → (ids t).Nodup → ∀ i ∈ ids (c v t), i ∈ ids v ∨ i ∈ ids t
+
+/-- a sub-search returns each id at most once (C02 / C03: "appears at most once") -/
+def NodupOut (f : List Id → Except Err (ScoreMap F)) : Prop :=
+  ∀ r m, f r = .ok m → (ids m).Nodup
 
 /-! ### ranking stage -/
 
@@ -130,7 +134,7 @@ theorem combine_old_fallback_misfire (e : Env F) (r : List Id) (hr : r ≠ []) :
 
 /-- every ranked id comes from a modality's result (or, metadata-only, from the filter) -/
 theorem combine_ids (e : Env F) (hc : KeysUnion e.combine) (q : Query F) (r : List Id)
-    (v t : ScoreMap F) :
+    (v t : ScoreMap F) (hnv : (ids v).Nodup) (hnt : (ids t).Nodup) :
     ∀ i ∈ ids (combineStage e q r v t),
       (q.hasVector = false ∧ q.hasText = false ∧ i ∈ r) ∨ i ∈ ids v ∨ i ∈ ids t := by
   intro i hi
@@ -142,7 +146,7 @@ theorem combine_ids (e : Env F) (hc : KeysUnion e.combine) (q : Query F) (r : Li
     refine ⟨h.1.1, h.1.2, ?_⟩
     simpa [ids, List.map_map, Function.comp_def] using hi
   · split at hi
-    · right; exact hc v t i hi
+    · right; exact hc v t hnv hnt i hi
     · split at hi
       · right; left; exact hi
       · split at hi
@@ -188,6 +192,7 @@ theorem hybrid_ranked (e : Env F)
 theorem hybrid_filter_respected (e : Env F) (hc : KeysUnion e.combine) (q : Query F)
     (hf : q.hasFilters = true) (cand : List Id) (hm : e.metaSearch = some (.ok cand))
     (hv : ∀ f, e.vecSearch = some f → Respects f) (ht : ∀ f, e.txtSearch = some f → Respects f)
+    (hdv : ∀ f, e.vecSearch = some f → NodupOut f) (hdt : ∀ f, e.txtSearch = some f → NodupOut f)
     (res : List (Hit F)) (h : execute e q = .ok res) :
     ∀ r ∈ res, r.id ∈ cand := by
   unfold execute at h
@@ -223,7 +228,21 @@ theorem hybrid_filter_respected (e : Env F) (hc : KeysUnion e.combine) (q : Quer
             | some g =>
               simp only [hf', if_true] at hs
               exact hR g hf' (a :: tl) m (by simp) hs i hi
-        rcases combine_ids e hc q (a :: tl) vres tres r.id hid with h1 | h1 | h1
+        have hnd : ∀ (asked : Bool) (f : Option (List Id → Except Err (ScoreMap F)))
+            (hD : ∀ g, f = some g → NodupOut g) (m : ScoreMap F),
+            subSearch asked f (a :: tl) = .ok m → (ids m).Nodup := by
+          intro asked f hD m hs
+          unfold subSearch at hs
+          cases asked with
+          | false => simp at hs; subst hs; simp [ids]
+          | true =>
+            cases hf' : f with
+            | none => simp [hf'] at hs
+            | some g =>
+              simp only [hf', if_true] at hs
+              exact hD g hf' (a :: tl) m hs
+        rcases combine_ids e hc q (a :: tl) vres tres (hnd _ _ hdv vres hvres)
+            (hnd _ _ hdt tres htres) r.id hid with h1 | h1 | h1
         · exact h1.2.2
         · exact hsub _ _ hv vres hvres r.id h1
         · exact hsub _ _ ht tres htres r.id h1
@@ -251,6 +270,7 @@ theorem hybrid_missing_text_err (e : Env F) (q : Query F) (hf : q.hasFilters = f
 /-- every result comes from one of the per-modality answers computed inside the filtered
     set (or, for a metadata-only query, is a filtered document with score 1) -/
 theorem hybrid_from_modalities (e : Env F) (hc : KeysUnion e.combine) (q : Query F)
+    (hdv : ∀ f, e.vecSearch = some f → NodupOut f) (hdt : ∀ f, e.txtSearch = some f → NodupOut f)
     (res : List (Hit F)) (h : execute e q = .ok res) :
     res = [] ∨ ∃ restrict vres tres,
       subSearch q.hasVector e.vecSearch restrict = .ok vres ∧
@@ -273,7 +293,21 @@ theorem hybrid_from_modalities (e : Env F) (hc : KeysUnion e.combine) (q : Query
         refine ⟨_, vres, tres, hvres, htres, ?_⟩
         intro r hr
         have hmem := rank_mem e q.k _ r hr
-        exact combine_ids e hc q _ vres tres r.id (List.mem_map.2 ⟨(r.id, r.score), hmem, rfl⟩)
+        have hnd : ∀ (asked : Bool) (f : Option (List Id → Except Err (ScoreMap F)))
+            (hD : ∀ g, f = some g → NodupOut g) (rr : List Id) (m : ScoreMap F),
+            subSearch asked f rr = .ok m → (ids m).Nodup := by
+          intro asked f hD rr m hs
+          unfold subSearch at hs
+          cases asked with
+          | false => simp at hs; subst hs; simp [ids]
+          | true =>
+            cases hf' : f with
+            | none => simp [hf'] at hs
+            | some g =>
+              simp only [hf', if_true] at hs
+              exact hD g hf' rr m hs
+        exact combine_ids e hc q _ vres tres (hnd _ _ hdv _ vres hvres) (hnd _ _ hdt _ tres htres)
+          r.id (List.mem_map.2 ⟨(r.id, r.score), hmem, rfl⟩)
 
 /-! ### non-vacuity -/
 section Example
@@ -295,7 +329,7 @@ example : IsTopK exEnv.ge 2 (toHits [(1, 5), (2, 16), (3, 2)]) [⟨2, 16⟩, ⟨
   checkTopK_sound _ _ _ _ (by decide)
 -- the hypotheses of hybrid_filter_respected are met by this environment
 example : KeysUnion exEnv.combine := by
-  intro v t i hi
+  intro v t _ _ i hi
   simp only [exEnv, ids, List.map_append, List.mem_append, List.mem_map, List.map_map] at hi ⊢
   rcases hi with ⟨p, hp, rfl⟩ | ⟨p, hp, rfl⟩
   · exact Or.inl ⟨p, hp, rfl⟩
